@@ -190,6 +190,21 @@ func NewParams(schema *Schema, su SimpleURL, resType string) (*Params, error) {
 				urule = urule[1:]
 			}
 
+			// A field can only be used once, the following
+			// rules for the same field would have no effect.
+			used := false
+
+			for _, srule := range sortingRules {
+				if srule == urule || srule == "-"+urule {
+					used = true
+					break
+				}
+			}
+
+			if used {
+				continue
+			}
+
 			if urule == "id" {
 				idFound = true
 
